@@ -18,6 +18,30 @@ CLAIMS = [
         "note": "A differing value is attributed to grouping only if every operator application recorded by the hook agrees with the specification; exponents are replayed up to two digits only.",
     },
     {
+        "property_id": "C07",
+        "level": "model_checking",
+        "technique": "TLA+ byte-level transcription of the number reader (Literal.FromStr) model-checked with TLC against the declarative denotation on every string <= 8 over digits/sign/point/exponent; every well-formed literal replayed through three entry points and validated by TLC against Trace_Literal.tla",
+        "text": "MC_Literal.tla grows every string over {0 1 9 + - . e E} up to length 8 (9 thorough) through viable prefixes and checks that the transcribed reader equals Denote on every well-formed literal and that the lexer takes it as one NUMBER token. The well-formed literals (exponent <= 3 digits) are given to str::parse::<Rational>, evaluated as a query and as a percentage; Trace_Literal.tla compares each result with Denote(src) in F_p. Random literals up to 600 digits (leading zeros, bare points, signs, every digit in every role) cover length independence.",
+        "design_ref": "DESIGN.md section 5/C07",
+        "note": "quick tier replays all literals up to 7 characters and every 5th of length 8; exponents of more than three digits are checked in the model only.",
+    },
+    {
+        "property_id": "C08",
+        "level": "model_checking",
+        "technique": "TLA+ transcription of the three formatter paths (Display.tla) model-checked with TLC for faithfulness on a grid of values x limits x thresholds; a slice of the grid and random values rendered by Rational::display and the printed characters read back and validated by TLC against Trace_Display.tla",
+        "text": "Display.tla models values as n/d * 10^k digit streams, transcribes format_big / format_whole / the leading-zero loop character by character, and defines Faithful by reading the printed text back. MC_Display.tla checks Faithful on the grid (quick 720k cases, thorough 18.7M) and that each of the three repaired defects (as-pinned constants) is rejected. The real formatter's output for a slice of the grid and for random n/d*10^k (|k| <= 40, limits 1..20, thresholds 1..15) is read back by TLC: unfaithful text is a violation, a faithful but different layout is drift.",
+        "design_ref": "DESIGN.md section 5/C08",
+        "note": "show_continuation is left at its default.",
+    },
+    {
+        "property_id": "C12",
+        "level": "model_checking",
+        "technique": "TLA+ lexer machine (Lexer.tla) model-checked with TLC on an unbounded nondeterministic character stream (finite state) and on all concrete strings <= N; parser transcription (Parser.tla) checked lossless on all token strings; real token lists and syntax trees validated by TLC against Trace_Parse.tla; native exhaustive sweep over the 40-symbol alphabet as a compiled monitor of the same invariants",
+        "text": "MC_LexerStream.tla proves non-empty tokens, progress and absence of deadlock for inputs of every length at character-class level; MC_Lexer.tla checks Tiles and ParserLossless on every string <= 4 (5 thorough) over 22 class representatives; MC_Parser.tla checks Lossless over all 17 token kinds. Binding: the strings of the model, one representative per distinct token-kind shape of the native sweep (all strings <= 5 / 6 over 40 symbols: 105M / 4.2G strings) and random strings up to 200 characters are lexed and parsed by the real code; Trace_Parse.tla requires real tokens to tile the input on character boundaries, the real tree's leaves to be exactly those tokens, and compares both with the specification's own token list and tree (differences are drift).",
+        "design_ref": "DESIGN.md section 5/C12",
+        "note": "termination of the real code is observed with a watchdog, not proved; the native sweep is a monitor whose verdicts are confirmed by TLC.",
+    },
+    {
         "property_id": "C14",
         "level": "model_checking",
         "technique": "TLA+ model of index building (IndexBuild.tla: workers x documents x tie sets) checked with TLC; recorded session histories with visible tie sets validated by TLC against Trace_IndexBuild.tla",
